@@ -272,6 +272,10 @@ func NewFloatFromString(typ *types.FloatType, s string) (*Float, error) {
 		if f64, err := strconv.ParseFloat(s, 64); err == nil || math.IsInf(f64, 0) {
 			x = big.NewFloat(f64).SetPrec(precision)
 		}
+		// A literal above the range of float denotes infinity.
+		if f64, _ := x.Float64(); !x.IsInf() && math.IsInf(float64(float32(f64)), 0) {
+			x.SetInf(x.Signbit())
+		}
 		c := &Float{
 			Typ: typ,
 			X:   x,
@@ -411,11 +415,14 @@ func (c *Float) Ident() string {
 		}
 		if c.X.IsInf() || !float.IsExact32(c.X) {
 			f, _ := c.X.Float64()
+			// Round to the nearest single (e.g. of a constant created by
+			// NewFloat(types.Float, 0.1)); values beyond the range of float are
+			// rounded to infinity. The last 29 bits of the double are zero
+			// thereafter.
+			f = float64(float32(f))
 			bits := math.Float64bits(f)
 			// Note, to match Clang output we do not zero-pad the hexadecimal
 			// output.
-			// zero out last 29 bits.
-			bits &^= 0x1FFFFFFF
 			return fmt.Sprintf("0x%X", bits)
 		}
 		// c is representable without loss as floating-point literal, this case is
